@@ -9,7 +9,8 @@ from ..oracles import geodesic_exact as G
 
 RULE = ("point pairs with spherical separation <= 178 deg: independent draws, near pairs (1e-8 deg .. 10 deg apart), same "
         "meridian, same parallel, equatorial, polar, straddling +-180, coincident; 4 shipped ellipsoids + random "
-        "(1/f in [280, 320]); non-trivial = separation > 1 m")
+        "(1/f in [280, 320]); oblique pairs 2..8 deg short of antipodal; floats, whole-degree ints, numpy float64; "
+        "non-trivial = separation > 1 m")
 ASSUMPTIONS = ["arrival is judged by following the exact (quadrature) geodesic with the returned distance and azimuth",
                "reverse azimuth tolerance: 1e-8 deg + 2 mm / (radius of the parallel of point 2) + 8 eps a / s rad "
                "(float-cancellation floor of any double-precision inverse; < 1e-8 deg for lines longer than 60 m) (DESIGN 2)",
